@@ -135,6 +135,40 @@ func checkReader(c *h.Ctx, r reader, cs Case, where string) {
 	if _, err := get(r, cs, "absent", cs.Key); err == nil {
 		c.Fail("C19/absent-key", "%s: reading an absent entry returned no error", where)
 	}
+	// "returned unchanged": the value handed back stays what it was while the caller holds it, whatever is
+	// read afterwards (a second encrypted entry, the same entry again, a failed read with another key)
+	if a, err := r.GetEncryptedBytes("secret", cs.Key); err == nil {
+		keep := append([]byte{}, a...)
+		b2, err2 := r.GetEncryptedBytes("secret2", cs.Key)
+		_, _ = r.GetEncryptedString("secret2", cs.Key)
+		_, _ = r.GetEncryptedBytes("secret", cs.Other)
+		_, _ = r.GetEncryptedString("secret", cs.Key)
+		if !bytes.Equal(a, keep) {
+			c.Fail("C19/returned-value-changed-by-later-read/"+where, "%s: the bytes returned by GetEncryptedBytes(\"secret\") changed after later reads on the same metadata: now %q, was %q", where, trunc(a), trunc(keep))
+		}
+		if err2 == nil && !bytes.Equal(b2, second(cs.Plain)) {
+			c.Fail("C19/roundtrip/"+where, "%s: second encrypted entry reads back wrong", where)
+		}
+		if err2 == nil {
+			c.P.Class("two-encrypted-entries")
+		}
+	}
+}
+
+// second derives the plaintext of the second encrypted entry from the first.
+func second(p []byte) []byte {
+	out := make([]byte, 0, len(p)+1)
+	for i := len(p) - 1; i >= 0; i-- {
+		out = append(out, p[i]^0x55)
+	}
+	return append(out, 'x')
+}
+
+func trunc(b []byte) []byte {
+	if len(b) > 40 {
+		return b[:40]
+	}
+	return b
 }
 
 // every nonce (first 24 bytes of a stored ciphertext) produced in this process
@@ -163,6 +197,10 @@ func run(c *h.Ctx, cs Case) {
 	m := meta.NewMeta()
 	if err := add(m, cs, "secret", cs.Key); err != nil {
 		c.Fail("C19/add-rejects-valid-key", "AddEncrypted with a valid 32-byte key failed: %v", err)
+		return
+	}
+	if err := m.AddEncrypted("secret2", second(cs.Plain), cs.Key); err != nil {
+		c.Fail("C19/add-rejects-valid-key", "AddEncrypted of a second entry failed: %v", err)
 		return
 	}
 	bad := cs.BadKey
@@ -198,7 +236,7 @@ func run(c *h.Ctx, cs Case) {
 		} else {
 			opt = delegation.WithEncryptedMetaString("secret", string(cs.Plain), cs.Key)
 		}
-		tk, err := delegation.New(iss, aud, command.MustParse("/foo"), policy.Policy{}, opt, delegation.WithMeta("plain", "visible"))
+		tk, err := delegation.New(iss, aud, command.MustParse("/foo"), policy.Policy{}, opt, delegation.WithMeta("plain", "visible"), delegation.WithEncryptedMetaBytes("secret2", second(cs.Plain), cs.Key))
 		if err != nil {
 			c.Fail("C19/option-rejects-valid", "delegation with encrypted meta rejected: %v", err)
 			return
@@ -228,7 +266,7 @@ func run(c *h.Ctx, cs Case) {
 		} else {
 			opt = invocation.WithEncryptedMetaString("secret", string(cs.Plain), cs.Key)
 		}
-		tk, err := invocation.New(iss, aud, command.MustParse("/foo"), []cid.Cid{}, opt)
+		tk, err := invocation.New(iss, aud, command.MustParse("/foo"), []cid.Cid{}, opt, invocation.WithEncryptedMetaBytes("secret2", second(cs.Plain), cs.Key))
 		if err != nil {
 			c.Fail("C19/option-rejects-valid", "invocation with encrypted meta rejected: %v", err)
 			return
